@@ -861,22 +861,22 @@ def check(run):
                         'theorems on auto layout assume 0 <= min <= max per column and table min >= spacing + sum of mins (measured on every render)',
                         'row heights / vertical placement and header/footer repetition are monitored, not proved']
     n = 8 if thorough else 1
-    direct_stream(run, 'dist-direct', 'dist', gen_dist(rng, 1200 * n), coq_dist_case, DIST_T, 'dist_judge',
+    direct_stream(run, 'dist-direct', 'dist', gen_dist(rng, 1000 * n), coq_dist_case, DIST_T, 'dist_judge',
                   lambda c: (dist_group(c), len(c['cols']), c['start'], c['stop'], bool(c.get('alias'))),
                   'all pairs of 8 column kinds x 5 slices, then random columns (profiles steer which of the six groups exist), '
                   'random slices incl. empty/out of range, aliasing of widths and max-content list as in preferred.py')
-    direct_stream(run, 'fixed-direct', 'fixed', gen_fixed(rng, 900 * n), coq_fixed_case, FIXED_T, 'fixed_judge',
+    direct_stream(run, 'fixed-direct', 'fixed', gen_fixed(rng, 800 * n), coq_fixed_case, FIXED_T, 'fixed_judge',
                   lambda c: (len(c['cols']), tuple(x['span'] for x in (c['cells'] or [])), c['collapse']),
                   'stub tables: 0..6 col elements auto/px/%, first row of 1..6 cells with colspan 1..3, widths auto/px/%, '
                   'paddings and borders, spacing, separate/collapse, table widths from too small to too large')
-    direct_stream(run, 'auto-direct', 'auto', gen_auto(rng, 1200 * n), coq_auto_case, AUTO_T, 'auto_judge',
+    direct_stream(run, 'auto-direct', 'auto', gen_auto(rng, 1000 * n), coq_auto_case, AUTO_T, 'auto_judge',
                   lambda c: (len(c['cols']), c['tw'] == 'auto', c['ml'] == 'auto', auto_branch(c)),
                   'stub context with an injected oracle: 0..6 columns, min<=max (10% deliberately insane), percentages, '
                   'constrained flags; table width below min / between guesses / exactly at a guess / above max',
                   skip=auto_near_threshold)
     corpus_stage(run)
-    render_streams(run, [('render-layout', 'layout', 110 * n), ('render-borders', 'borders', 80 * n),
-                         ('render-split', 'split', 40 * n)], rng, thorough)
+    render_streams(run, [('render-layout', 'layout', 100 * n), ('render-borders', 'borders', 70 * n),
+                         ('render-split', 'split', 32 * n)], rng, thorough)
 
 
 def replay(data):
